@@ -107,7 +107,12 @@ class Ctx:
         self.obligations.append({'name': 'corr %s: forallb %s over %d cases (%d coqc shards)' % (stream, check_fn, len(cases), nshards),
                                  'kind': 'corr', 'ok': not failing,
                                  'detail': '' if not failing else '%d disagreeing cases, first index %d' % (len(failing), failing[0])})
-        return [cases[i][1] for i in failing]
+        out = []
+        for i in failing:
+            obj = dict(cases[i][1]) if isinstance(cases[i][1], dict) else {'case': cases[i][1]}
+            obj['coq_header'] = header; obj['coq_check'] = check_fn; obj['coq_type'] = case_type; obj['coq_term'] = cases[i][0]
+            out.append(obj)
+        return out
     def sample(self, obj):
         if len(self.samples) < 6:
             self.samples.append(obj)
